@@ -357,6 +357,10 @@ func genRoute() (string, error) {
 			return "", fmt.Errorf("VariableRouteRuleImpl.Match: %v", err)
 		}
 		fmt.Fprintf(&sb, "/-- `VariableRouteRuleImpl.Match`; the loop-carried variables are threaded through `forRangeS`. A nil item (which `ParseToVariableMatchItem` can return) is outside the model -/\ndef variableMatch (rx : RxOracle) (ctx : Str → Option Str) (variables : List VarItem) : Bool :=\n  %s\n\n", body)
+		// ---- ParseToVariableMatchItem (gen_c04r.go)
+		if err := c04rGenParseVarItem(&sb, fv); err != nil {
+			return "", err
+		}
 	}
 	// ---- the two entry loops of a virtual host
 	fvh, err := parse("pkg/router/virtualhost.go")
